@@ -59,3 +59,43 @@ package zlib
 //@   ensures[C14 sticky-out] result != nil ==> z.err == result
 //@   ensures[C16 idempotent-close] old(z.closed) && old(z.err) == nil ==> result == nil && extWrites == old(extWrites)
 //@   ensures[C16 closes] result == nil ==> z.closed
+
+// ---------------------------------------------------------------------------
+// reader
+// ---------------------------------------------------------------------------
+
+//@ implementers io.ReadCloser: *github.com/intel/fastgo/compress/flate.decompressor, other
+//@ implementers io.Reader: *bufio.Reader, other
+//@ implementers compress/flate.Reader: *bufio.Reader, other
+
+//@ pure zrBase(z *reader) bool = (z.err == nil ==> z.decompressor != nil && z.digest != nil && z.r != nil) && (typeis(z.decompressor, *github.com/intel/fastgo/compress/flate.decompressor) ==> rdOK(z.decompressor.(*github.com/intel/fastgo/compress/flate.decompressor))) && (typeis(z.r, *bufio.Reader) ==> brOK(z.r.(*bufio.Reader)))
+
+//@ func (*reader).Read
+//@   params z, p -> n, err
+//@   requires zrBase(z)
+//@   modifies z.err, z.scratch, **z.decompressor, **z.r, p[*], extReads, peekErr, lastReadN, lastReadErr, rfErr, rfN, lastSum32
+//@   ensures[C07 inv] zrBase(z)
+//@   ensures[C07 C15 sticky] old(z.err) != nil ==> n == 0 && err == old(z.err) && extReads == old(extReads)
+//@   ensures[C07 C15 err-recorded] err != nil && err != io.EOF ==> z.err == err
+//@   ensures[C07 n-in-range] 0 <= n && n <= len(p)
+//@   ensures@5[C07 eof-checked] checksum == lastSum32 && uint32(z.scratch[0])<<24|uint32(z.scratch[1])<<16|uint32(z.scratch[2])<<8|uint32(z.scratch[3]) == checksum
+//@   ensures@4[C07 mismatch-is-error] err == ErrChecksum
+//@   ensures@3[C07 C15 trailer-cut] err != io.EOF && (rfErr == io.EOF ==> err == io.ErrUnexpectedEOF) && (rfErr != io.EOF ==> err == rfErr)
+//@   ensures@2[C15 src-err] err != io.EOF
+//@   ensures[C07 eof-only-checked] err == io.EOF && old(z.err) == nil ==> z.err == io.EOF
+
+//@ func (*reader).Close
+//@   params z -> err
+//@   requires zrBase(z) && z.decompressor != nil
+//@   modifies z.err, **z.decompressor
+//@   ensures[C15] old(z.err) != nil && old(z.err) != io.EOF ==> err == old(z.err)
+
+//@ func (*reader).Reset
+//@   params z, r, dict -> err
+//@   requires (typeis(z.decompressor, *github.com/intel/fastgo/compress/flate.decompressor) ==> z.decompressor.(*github.com/intel/fastgo/compress/flate.decompressor).rBuf != nil ==> brOK(z.decompressor.(*github.com/intel/fastgo/compress/flate.decompressor).rBuf)) && (typeis(r, *bufio.Reader) ==> brOK(r.(*bufio.Reader)))
+//@   modifies *z, **z.decompressor, **r, extReads, peekErr, lastReadN, lastReadErr, rfErr, rfN
+//@   ensures[C13 fresh] err == nil ==> zrBase(z) && z.err == nil
+//@   ensures@5[C13 dict-honoured] haveDict ==> typeis(z.decompressor, other)
+//@   ensures[C07 C15 no-eof] err != io.EOF
+//@   ensures[C15 err-recorded] z.err == err
+//@   ensures[C05 C13 src] err == nil && typeis(r, *bufio.Reader) ==> typeis(z.r, *bufio.Reader) && z.r.(*bufio.Reader) == r.(*bufio.Reader)
